@@ -299,6 +299,7 @@ func (rt *sessRT) reader(conn net.Conn, dr *dirRT, sc *spec.Script, rd int, isCl
 	if think < 1 {
 		think = 1
 	}
+	bufs := map[int][]byte{}
 	if sc.ReadDelayUs > 0 {
 		select {
 		case <-time.After(time.Duration(sc.ReadDelayUs) * time.Microsecond):
@@ -323,7 +324,13 @@ func (rt *sessRT) reader(conn net.Conn, dr *dirRT, sc *spec.Script, rd int, isCl
 			<-rt.closing
 			return
 		}
-		buf := make([]byte, bs)
+		// one buffer per size for the life of the reader (the collector is off during a run:
+		// a fresh 32 KiB buffer for each of tens of thousands of reads is gigabytes)
+		buf := bufs[bs]
+		if buf == nil {
+			buf = make([]byte, bs)
+			bufs[bs] = buf
+		}
 		n, err := conn.Read(buf)
 		if n > 0 {
 			if !isClient {
